@@ -49,7 +49,7 @@ func onoff(b bool) string {
 func c15Config(r *vlib.Rand, backend string) pubCfg {
 	cfg := pubCfg{Backend: backend, DefBody: 2048, DefHdr: 512}
 	cfg.Pol = pubPolicy{Direct: !r.Chance(0.1), ManagedOn: !r.Chance(0.1), AllowPull: !r.Chance(0.12), AllowDeliver: !r.Chance(0.12), RequireActor: r.Chance(0.2), RequireReqID: r.Chance(0.2)}
-	cfg.MaxDepth = vlib.Pick(r, []int{0, 0, 12, 30})
+	cfg.MaxDepth = vlib.Pick(r, []int{0, 0, 12, 30, 600, 900})
 	cfg.DropOld = cfg.MaxDepth > 0 && r.Bool()
 	var b strings.Builder
 	b.WriteString("ingress { listen 127.0.0.1:0 }\npull_api { listen 127.0.0.2:0\n auth token raw:tok }\nadmin_api { listen 127.0.0.3:0 }\n")
@@ -338,7 +338,9 @@ func C15(c *vlib.Ctx) {
 				target = fmt.Sprintf("%s/applications/%s/endpoints/%s/messages/publish", prefix, scopedRoute.App, scopedRoute.EP)
 			}
 			n := r.Range(1, 40)
-			if c.Thorough() && r.Chance(0.05) {
+			if r.Chance(0.05) || (cfg.MaxDepth >= 600 && r.Chance(0.35)) {
+				// large batches (the request limit is 1000 items), in particular around a
+				// depth limit of 600/900: refused as a whole or stored as a whole
 				n = r.Range(200, 1000)
 			}
 			if k%11 == 10 {
